@@ -167,7 +167,7 @@ def to_model(case, obs):
             probes.append((len(evs), ci, "sync"))
             evs.append("CRing %d (Sync %d)" % (c[1], tr.now))
         elif n == "next":
-            order = seq.get(c[1], [])[pos[ci]:][:48]
+            order = seq.get(c[1], [])[pos[ci]:]          # never truncated: a batch can hold every outstanding entry
             probes.append((len(evs), ci, "next"))
             evs.append("CRing %d (Next %d %s)" % (c[1], tr.now, coq_list(order)))
         elif n == "readable":
